@@ -22,12 +22,16 @@ oracle: (no Lean) families whose demanded output is computed from the generator'
                              Namespace attributes, URIs differing only in non-word characters, body()/blocks
                              through tag and get_namespace, inline defs x import= order, '*' vs inline def, local in
                              inline defs at every inheritance level, dotted URIs x put_string/files, unresolvable
-                             and empty URIs from all six constructs);
+                             and empty URIs from all six constructs; URIs that leave the lookup root towards files
+                             planted above the root, in a private sibling directory and in the second lookup
+                             directory, from all six constructs and lookup.get_template);
         oracle.same_relative 2..4 callers in different directories, reached in one render, writing the same relative
                              string through get_namespace/get_template/include_file/<%include>/<%namespace file>;
         oracle.uri_tree      random reference trees (7 kinds of reference x body/def/inline-def placement x
                              inheritance), shrunk by dropping references;
-        oracle.unresolvable  a reached reference of a tree replaced by a missing or empty URI;
+        oracle.unresolvable  a reached reference of a tree replaced by a missing or empty URI, or by a URI that climbs
+                             above the root (dir/../../x from the writer's depth, /d/../../x, down-then-up) to a file
+                             that exists there: TemplateLookupException, never the outside content;
         oracle.precedence    n.k() and k() for every name over inline defs / file or real-module members / inherited
                              defs / own defs / import list,'*',none / context, strict_undefined on/off; inheritable
                              namespaces reached as self.n from derived templates of depth 1..3;
@@ -52,7 +56,8 @@ RULE = ("corr.render: template sets of n in 2..8 templates at canonical URIs of 
         "them sharing a base name (h.html, k.html) in different directories; references only point to higher-numbered "
         "templates (no cycles); each reference is written absolute, relative to the directory of the template it is "
         "written in (with ../ as needed; mostly avoided under put_string), or with redundant ./, // and seg/../ "
-        "segments, 2.5% unresolvable or empty; backing = put_string | files in 1-3 directories (with shadowed and "
+        "segments, 2.5% unresolvable or empty, 3% (file-backed sets with files planted above the root and in a private "
+        "sibling directory, 60% of them) leaving the lookup root; backing = put_string | files in 1-3 directories (with shadowed and "
         "shadowing duplicates) | both; strict_undefined on in 25%, include_error_handler set in 35% of the sets; "
         "namespaces: file/module/plain x inline defs x import list/'*'/none x inheritable; page arguments with and "
         "without defaults; bodies, defs, inline defs and named blocks made of identity tags, unqualified names (called "
@@ -483,6 +488,34 @@ def ref_uri(rng, owner, target, spice=True, avoid_dotdot=False):
     return u
 
 
+# files planted OUTSIDE the lookup directories (relative to directory 0; all directories are siblings below one root):
+# above the root and in a sibling directory that is not a lookup directory
+OUTSIDE = [("../outside.html", "[OUTSIDE-TOP]"), ("../private/secret.html", "[OUTSIDE-PRIVATE]")]
+
+
+def plant_outside(case):
+    for rel, txt in OUTSIDE:
+        case["files"].append(((0, rel), T(body=[("t", txt)])))
+
+
+def escaping_uri(rng, owner, siblings=()):
+    """a URI written in the template at canonical URI `owner` that climbs above the lookup root and names a file that
+    exists there (`siblings`: paths 'rK/rel' of files in lookup directories, reached by leaving the root first)"""
+    k = owner.count("/") - 1
+    up = "../" * (k + 1)
+    tails = ["outside.html", "private/secret.html"] + list(siblings)
+    tail = rng.choice(tails)
+    r = rng.random()
+    if r < 0.5:
+        return up + tail                                   # dir/../../x from the owner's depth
+    if r < 0.75:
+        d = rng.choice(["a", "a/b", "x/y/z"])              # absolute, with a directory part before the ..
+        return "/" + d + "/" + "../" * (d.count("/") + 2) + tail
+    if r < 0.9:
+        return "sub/" + "../" + up + tail                  # down first, then up
+    return "/../" + tail                                   # leading ..
+
+
 class Gen:
     def __init__(self, rng):
         self.rng = rng
@@ -494,6 +527,7 @@ class Gen:
         used = set()
         self.uris = [canon_uri(rng, i, used) for i in range(n)]
         self.backing = rng.choice(["put", "put", "files", "files", "mixed"])
+        self.planted = self.backing != "put" and rng.random() < 0.6
         self.base = {}
         self.inherit_targets = set()
         for i in range(n - 1):
@@ -523,6 +557,8 @@ class Gen:
                 elif rng.random() < 0.1 and d > 0 and i > 0:
                     # a duplicate in an earlier directory wins
                     case["files"].append(((d - 1, u.lstrip("/")), T(body=[("t", "[EARLIER %s]" % u)])))
+        if self.planted:
+            plant_outside(case)
         names = rng.sample(CTXNAMES, rng.randint(2, len(CTXNAMES)))
         case["data"] = [(x, ("obj", "<ctx.%s>" % x)) for x in names]
         return case
@@ -546,6 +582,8 @@ class Gen:
     def uri_to(self, i, j):
         if self.rng.random() < 0.025:
             return self.rng.choice(["missing.html", "/nowhere/x.html", "../zz.html", ""])
+        if self.planted and self.rng.random() < 0.03:
+            return escaping_uri(self.rng, self.uris[i])
         return ref_uri(self.rng, self.uris[i], self.uris[j], avoid_dotdot=self.backing != "files")
 
     def inc_args(self):
@@ -747,6 +785,9 @@ def corr_render(ctx, sb):
             ctx.branch("config:strict=%d,include_error_handler=%d" % (bool(c.get("strict")), bool(c.get("ieh"))))
             for e in me:
                 ctx.branch("event:%s:%s:%s" % (e[0], "abs" if e[2].startswith("/") else "rel", "found" if e[4] else "missing"))
+            for e in me:
+                if not e[4] and posixpath.normpath(e[3].replace("\\", "/").lstrip("/")).startswith(".."):
+                    ctx.branch("event:leaves-the-root:" + ("outside-files-planted" if any(k[1].startswith("../") for k, _ in c["files"]) else "nothing-there"))
             if me:
                 ctx.nontriv(case_key(c))
             if d == "fuel":
@@ -984,6 +1025,7 @@ class Tree:
         self.uris = [canon_uri(rng, i, used) for i in range(self.n)]
         self.backing = backing or rng.choice(["put", "files", "mixed"])
         self.ndirs = rng.randint(1, 3)
+        self.planted = self.backing != "put"
         self.ieh = rng.random() < 0.4
         self.where = [(self.backing if self.backing != "mixed" else rng.choice(["put", "files"]), rng.randrange(self.ndirs))
                       for _ in range(self.n)]
@@ -1131,7 +1173,13 @@ class Tree:
                 c["coll"].append((u, t))
             else:
                 c["files"].append(((d, u.lstrip("/")), t))
+        if self.planted:
+            plant_outside(c)
         return c
+
+    def escape_uri(self, i):
+        sib = ["r%d/%s" % (d, u.lstrip("/")) for (how, d), u in zip(self.where, self.uris) if how == "files"]
+        return escaping_uri(self.rng, self.uris[i], sib[:3])
 
     def describe(self):
         d = []
@@ -1266,7 +1314,13 @@ def oracle_unresolvable(ctx, sb):
         # keep only the path to one reference, then break it
         i, place, idx = ctx.rng.choice(refs)
         kind, j, raw = tree.refs[i][place][idx]
-        bad = ctx.rng.choice(["nope.html", "/zz/nope.html", "sub/nope.html", "", "../" * 4 + "nope.html"])
+        escaping = ctx.rng.random() < 0.5
+        if escaping:
+            # climbs above the lookup root to a file that exists there (above the root, in a private sibling directory,
+            # or in a lookup directory entered from outside): unresolvable, and its content must never be rendered
+            bad = tree.escape_uri(i)
+        else:
+            bad = ctx.rng.choice(["nope.html", "/zz/nope.html", "sub/nope.html", "", "../" * 4 + "nope.html"])
         tree.refs[i][place][idx] = (kind, j, bad)
         st["cases"] += 1
         c = tree.case()
@@ -1278,11 +1332,11 @@ def oracle_unresolvable(ctx, sb):
             status, out = run_plain(c)
         finally:
             release(c)
-        ctx.branch("oracle:unresolvable:%s:%s" % (kind, status))
+        ctx.branch("oracle:unresolvable:%s:%s:%s" % (kind, "escaping" if escaping else "missing", status))
         if status == "err:lookup":
             continue
         # is the broken reference reached at all?  (an earlier one may be on a path that fails for a known reason)
-        site = "unresolvable-uri:%s:%s" % ("empty" if bad == "" else "missing", status)
+        site = "unresolvable-uri:%s:%s" % ("escaping" if escaping else "empty" if bad == "" else "missing", status)
         report(ctx, site, {"input": bad, "kind": kind, "place": place, "from": tree.uris[i], "repro": strip_case(c),
                            "want_status": ["err:lookup"]},
                "an unresolvable URI must raise TemplateLookupException, got %s %r" % (status, out[:200]),
@@ -1767,8 +1821,57 @@ def oracle_same_relative(ctx, sb):
                "got %s %r, the property demands %r (every caller writes %r)" % (status, out, want, rel), "oracle.same_relative")
 
 
+def oracle_escaping(ctx, sb):
+    """fixed witnesses: every construct, written at depth 2, with a relative and an absolute URI that leave the lookup
+    root towards a file that exists (above the root / private sibling directory / the second lookup directory);
+    demanded: TemplateLookupException, and in no case the outside content.  Also lookup.get_template itself."""
+    from mako.lookup import TemplateLookup
+    from mako import exceptions as X
+    st = ctx.stream("oracle.adversarial", "oracle")
+    raws = ["../../../outside.html", "/l1/../../outside.html", "../../../private/secret.html", "/l1/l2/../../../r1/inner.html",
+            "sub/../../../../outside.html"]
+    for raw in raws:
+        for how in ("incl", "ns", "inherit", "get_template", "get_namespace", "include_file", "lookup.get_template"):
+            if how == "incl":
+                a = T(body=[("i", raw, [])])
+            elif how == "ns":
+                a = T(nss=[NS("n", ("f", raw))], body=[("c", ("ns", "n"), "body")])
+            elif how == "inherit":
+                a = T(inherit=raw, body=[("t", ".")])
+            elif how == "get_template":
+                a = T(body=[("t", "${local.get_template('%s').render()}" % raw)])
+            elif how == "get_namespace":
+                a = T(body=[("an", "local", raw, "body")])
+            else:
+                a = T(body=[("ai", "local", raw, [])])
+            c = dict(coll=[], dirs=["r0", "r1"], files=[((0, "l1/l2/a.html"), a), ((1, "inner.html"), T(body=[("t", "[r1.inner]")]))],
+                     mods=[], backing="files", data=[], entry="/l1/l2/a.html")
+            plant_outside(c)
+            materialise(c, sb)
+            try:
+                if how == "lookup.get_template":
+                    lk = TemplateLookup(directories=list(c["dirs"]))
+                    u = raw if raw.startswith("/") else "/l1/l2/" + raw
+                    try:
+                        out = lk.get_template(u).render()
+                        status = "ok"
+                    except X.TemplateLookupException:
+                        status, out = "err:lookup", ""
+                else:
+                    status, out = run_plain(c)
+            finally:
+                release(c)
+            st["cases"] += 1
+            ctx.branch("oracle:escaping:%s:%s" % (how, status))
+            if status != "err:lookup" or "OUTSIDE" in out or "r1.inner" in out:
+                report(ctx, "unresolvable-uri:escaping:%s" % status,
+                       {"input": raw, "kind": how, "repro": strip_case(c), "want_status": ["err:lookup"]},
+                       "a URI that leaves the lookup root must raise TemplateLookupException, got %s %r" % (status, out[:200]),
+                       "oracle.adversarial")
+
+
 def oracle(ctx, sb):
-    for fam in (oracle_adversarial, oracle_same_relative, oracle_uri_tree, oracle_unresolvable, oracle_precedence, oracle_include):
+    for fam in (oracle_adversarial, oracle_escaping, oracle_same_relative, oracle_uri_tree, oracle_unresolvable, oracle_precedence, oracle_include):
         try:
             fam(ctx, sb)
         except Exception:
